@@ -247,6 +247,12 @@ class UnusedTranslator:
                 continue
             if head == Predicate(blit.atom.symbol.name, len(blit.atom.symbol.arguments)):
                 continue
+            body_vars = collect_ast(blit, "Variable")
+            if any(
+                var.name != "_" and var not in hlit.atom.symbol.arguments and body_vars.count(var) > 1
+                for var in body_vars
+            ):
+                continue  # a variable that only occurs in the body joins two positions, it can not become anonymous
             mapping[head] = UnusedTranslator.Mapper(
                 UniqueVariables(rules[0]), prg.index(rules[0]), list(hlit.atom.symbol.arguments), blit.atom.symbol
             )
